@@ -18,6 +18,10 @@ pipeline for ALL orders; here the real code is run under many concrete orders):
                        repeats, several hash seeds; parse_args' defines against the Lean model.
   E. hash-seed stream — the table stream's values (`float.hex`) and summary text computed in fresh interpreters under
                        different PYTHONHASHSEED values (set iteration order of the platform names changes).
+  F. textperm stream — (`c14_text.py`) text-level code bases of the C06 `txt` generator presented with the files, the
+                       `[platform.*]` tables and the database entries rearranged (entries also repeated), analysed in process
+                       and in fresh interpreters under several hash seeds; all observations identical, and equal to the
+                       composed Lean model `C14C.canonOf (C06C.analyse ..)` the theorems of `Props/C14Compose.lean` are about.
 
 Reading of the property fixed here: every result the statement lists (platform-set table, metrics,
 distance matrix, per-line attribution, coverage export, duplicate groups) is compared byte-for-byte /
@@ -41,6 +45,7 @@ from pathlib import Path
 
 from harness import core
 from harness.gen import codebase as cbgen
+from harness.props import c14_text as CT
 
 SHIM = r'''
 # interposed by the CBI verification harness (C14): shuffles directory enumeration
@@ -1130,7 +1135,11 @@ def run(ctx, drv):
                 "seeds, values compared as float.hex. Analysis stream: finder.find + get_setmap in process under permuted "
                 "platform order and shuffled os.scandir, plus attribution = union of single-platform analyses. Modes stream: "
                 "user compilers with 2-4 modes; passes stream: a user compiler whose options select passes (list defaults with and without override), 2-4 "
-                "platforms, permuted [platform.*] order. Non-trivial = distinct code bases whose table has >= 2 non-empty platform sets "
+                "platforms, permuted [platform.*] order. Textperm stream: text-level code bases (C01 conditional programs decorated with C05 material, "
+                "1-4 files, 0-4 platforms, 0-3 compile commands with different -D lists per file and platform) in 3 presentations "
+                "(files, [platform.*] tables and database entries rearranged, entries repeated), in process and in fresh interpreters "
+                "under 3/6 hash seeds, compared with each other and with the composed Lean model (op c14text); non-trivial there = "
+                ">= 2 files, >= 2 platforms, >= 2 platform sets. Non-trivial = distinct code bases whose table has >= 2 non-empty platform sets "
                 "and a defined divergence, distinct tables with a tie in set size and >= 2 platforms, distinct conflicting mode "
                 "configurations.")
     ctx.extra["evidence_label"] = "partial (theorems: all orders of the modelled pipeline; runtime and third-party iteration orders: sampled)"
@@ -1141,7 +1150,12 @@ def run(ctx, drv):
         "iteration order inside CPython (set/dict layout) and inside third-party libraries (pathlib, tabulate, tomllib, "
         "jsonschema, scipy/matplotlib) is only sampled by the runs above",
         "per-entry preprocessing is a function of the entry alone (fresh Platform per entry; C01/C04 models); the shared "
-        "ParserState only caches parse trees by real path",
+        "ParserState only caches parse trees by real path — for the text-level pipeline without #include resolution this is no "
+        "longer an assumption: C14.Text.* (Props/C14Compose.lean) prove order independence of C06C.analyse, whose per-entry "
+        "step is the C01 associator on the C05 parse of the text, and the textperm stream ties that model to the real code",
+        "text-level theorems (C14.Text.*): file names distinct, platform names distinct, no #include resolution (C04's layer), no "
+        "symbolic links; WHICH exception surfaces first when several inputs are faulty is not a listed result and is not compared "
+        "(C14.Text.first_exception_depends_on_order); that the analysis raises at all is compared",
         "Python's builtin sum() is modelled as a left fold of an arbitrary binary operation over the sorted platform list "
         "(any deterministic summation of the same list gives the same result); because CPython >= 3.12 sums floats with "
         "compensation, average_coverage is additionally observed with the name `sum` interposed in codebasin.report by a "
@@ -1175,17 +1189,22 @@ def run(ctx, drv):
             modes_jobs = modes_submit(ctx, pool, scratch, shimdir)
             passes_jobs = passes_submit(ctx, pool, scratch, shimdir)
             hs_job = hashseed_submit(ctx, pool, scratch)
+            tp_job = CT.submit(ctx, pool, scratch)
             t.append(time.time())
             table_stream(ctx, drv)
             t.append(time.time())
             analysis_stream(ctx, drv, scratch)
+            t.append(time.time())
+            tp_in = CT.inprocess(ctx, tp_job[0], seconds=10 if not ctx.thorough() else 100)
             t.append(time.time())
             hashseed_collect(ctx, hs_job)
             modes_collect(ctx, drv, modes_jobs)
             passes_collect(ctx, passes_jobs)
             cli_collect(ctx, drv, cli_jobs)
             t.append(time.time())
-            ctx.extra["timings_s"] = dict(zip(["submit", "table_stream", "analysis_stream", "wait_for_subprocesses"],
+            CT.collect(ctx, drv, tp_job, tp_in)
+            t.append(time.time())
+            ctx.extra["timings_s"] = dict(zip(["submit", "table_stream", "analysis_stream", "textperm_in_process", "wait_for_subprocesses", "textperm_compare"],
                                               [round(b - a, 1) for a, b in zip(t, t[1:])]))
 
 
@@ -1194,6 +1213,8 @@ def search(ctx, drv):
 
 
 def replay(ctx, drv, case):
+    if case.get("kind") == "textperm":
+        return CT.replay(ctx, drv, case)
     out = {"kind": case.get("kind"), "section": case.get("section")}
     if case.get("kind") in ("cli", "modes"):
         with core.Scratch() as scratch:
